@@ -45,6 +45,49 @@ def degenerate_equality_classes(A):
     return out
 
 
+def context_layers(A, fac, update_call):
+    """The value handed to `self._data.update(...)` as a list of alternatives (one per branch), each a list of layers in
+    application order: ('global', term) for the context's own data, ('ns', term) for a per-namespace entry, ('copied', term)
+    for anything else that passed deepcopy, ('other', term) otherwise.  Copies are kept in the terms.  None if not evaluable."""
+    if not update_call.args:
+        return None
+    cfgc = A.cls('Config')
+    old = getattr(A.sym, 'keep_copies', False)
+    A.sym.keep_copies = True
+    try:
+        ts = A.sym.terms_at(fac, ('inst', cfgc), [update_call.args[0]]).get(id(update_call.args[0]), [])
+    finally:
+        A.sym.keep_copies = old
+    if not ts:
+        return None
+    from ..terms import contains
+
+    def classify(t):
+        inner = t[2][0] if t[0] == 'call' and t[1].endswith('deepcopy') and t[2] else t
+        if contains(inner, lambda x: isinstance(x, tuple) and len(x) == 3 and x[0] == 'attr' and x[2] == 'for_namespaces') or inner[0] == 'var':
+            return 'ns'
+        if contains(inner, lambda x: isinstance(x, tuple) and len(x) == 3 and x[0] == 'attr' and x[2] in ('_data', 'data')):
+            return 'global'
+        return 'copied' if inner is not t else 'other'
+
+    def alts(t):
+        if t[0] == 'cond':
+            return alts(t[2]) + alts(t[3])
+        if t[0] == 'call' and t[1] in ('update', 'merge') and len(t[2]) >= 2:
+            out = [[]]
+            for part in t[2]:
+                out = [a + b for a in out for b in alts(part)]
+            return out
+        if t[0] == 'dict' and not t[1]:
+            return [[]]
+        return [[(classify(t), t)]]
+
+    out = []
+    for t in ts:
+        out += alts(t)
+    return out
+
+
 def check_context_isolation(A, R: Report, rid: str):
     cfgc = A.cls('Config')
     ctxc = A.cls('Context')
@@ -55,6 +98,10 @@ def check_context_isolation(A, R: Report, rid: str):
     for u in updates:
         arg = subst_single_assign(A, fac, u.args[0]) if u.args else None
         ok = isinstance(arg, ast.Call) and src(arg.func).split('.')[-1] == 'deepcopy'
+        lay = context_layers(A, fac, u)
+        if lay is not None:
+            raw = [pretty(t)[:80] for br in lay for kind, t in br if kind != 'copied' and not (t[0] == 'call' and t[1].endswith('deepcopy'))]
+            ok = ok and not raw
         R.check(ok, rid, f'Config.apply_context: `{src(u)[:60]}`', key_of('no-deepcopy', src(arg) if arg is not None else None), 'deep-copied',
                 'context values are shared by reference with the config: mutating one config (object instantiation, placeholder substitution) changes the context and every other config built from it', where=where(fac, u))
     # accumulators of merge_contexts
@@ -99,6 +146,99 @@ def check_context_isolation(A, R: Report, rid: str):
     bad_acc = [m for m in mutated if m in acc and not acc[m]] + [m for m in mutated if m not in acc and not m.startswith('self')]
     R.check(not bad_acc and not alias, rid, 'Context.merge_contexts', key_of('merge-alias', sorted(bad_acc), [src(a)[:60] for a in alias]), 'only fresh accumulators are mutated',
             f'merging mutates / aliases its inputs ({sorted(bad_acc) or [src(a) for a in alias]}): values of one merge leak into the original contexts and into later merges', where=where(fmc))
+
+
+_MUTATORS = {'update', 'pop', 'popitem', 'clear', 'setdefault', 'append', 'extend', 'insert', 'remove', 'sort', 'reverse', '__setitem__', '__delitem__', 'discard', 'add'}
+_FRESH_CALLS = {'dict', 'list', 'set', 'tuple', 'sorted', 'copy', 'deepcopy', 'copy.copy', 'copy.deepcopy', 'defaultdict', 'OrderedDict', 'frozenset', 'str', 'map', 'filter'}
+
+
+def owned_mutations(A, f, owned_params, depth=2, data_kw=('data',)):
+    """Statements of `f` (and, up to `depth`, of repo functions it hands such objects to) that mutate an object the caller owns:
+    the parameters `owned_params`, anything read out of them (attributes, items, .get()), and objects constructed *around* them
+    (`Context(data=<owned>)` keeps the mapping itself).  Copies (dict(), comprehension, copy(), deepcopy()) are fresh."""
+    owned = set(owned_params)
+    nodes = list(A.typer.own_nodes(f))
+
+    def is_owned(e):
+        if isinstance(e, ast.Name):
+            return e.id in owned
+        if isinstance(e, (ast.Attribute, ast.Subscript)):
+            return is_owned(e.value)
+        if isinstance(e, ast.Starred):
+            return is_owned(e.value)
+        if isinstance(e, ast.IfExp):
+            return is_owned(e.body) or is_owned(e.orelse)
+        if isinstance(e, ast.BoolOp):
+            return any(is_owned(v) for v in e.values)
+        if isinstance(e, ast.NamedExpr):
+            return is_owned(e.value)
+        if isinstance(e, ast.Call):
+            fn = src(e.func)
+            if fn in _FRESH_CALLS or fn.split('.')[-1] in ('copy', 'deepcopy'):
+                return False
+            if isinstance(e.func, ast.Attribute) and e.func.attr in ('get', 'setdefault', 'values', 'items') and is_owned(e.func.value):
+                return True
+            ci = A.prog.find_cls(fn)
+            if ci is not None:      # an object built around the caller's mapping
+                return any(kw.arg in data_kw and is_owned(kw.value) for kw in e.keywords)
+            return False
+        return False
+
+    def elems_owned(e):
+        """the elements of `e` are the caller's objects, although `e` itself may be a fresh (shallow) container"""
+        if is_owned(e):
+            return True
+        if isinstance(e, ast.Call) and 'deepcopy' not in src(e.func):
+            return any(elems_owned(a) for a in e.args)
+        return False
+
+    changed = True
+    while changed:
+        changed = False
+        for n in nodes:
+            tgt = val = None
+            if isinstance(n, ast.Assign) and len(n.targets) == 1:
+                tgt, val = n.targets[0], n.value
+            elif isinstance(n, ast.AnnAssign) and n.value is not None:
+                tgt, val = n.target, n.value
+            elif isinstance(n, ast.NamedExpr):
+                tgt, val = n.target, n.value
+            elif isinstance(n, ast.For):
+                tgt, val = n.target, n.iter
+            if tgt is None:
+                continue
+            if is_owned(val) or (isinstance(n, ast.For) and elems_owned(val)):
+                for x in ast.walk(tgt) if isinstance(tgt, (ast.Tuple, ast.List)) else [tgt]:
+                    if isinstance(x, ast.Name) and x.id not in owned:
+                        owned.add(x.id)
+                        changed = True
+    out = []
+    for n in nodes:
+        if isinstance(n, ast.Delete):
+            for t in n.targets:
+                if isinstance(t, (ast.Subscript, ast.Attribute)) and is_owned(t.value):
+                    out.append((f, n, f'`{src(n)[:70]}`'))
+        elif isinstance(n, (ast.Assign, ast.AugAssign, ast.AnnAssign)):
+            tg = n.targets if isinstance(n, ast.Assign) else [n.target]
+            for t in tg:
+                for x in ([t] + list(getattr(t, 'elts', []))):
+                    if isinstance(x, (ast.Subscript, ast.Attribute)) and is_owned(x.value) and not (isinstance(x, ast.Attribute) and src(x.value) in ('self', 'cls')):
+                        out.append((f, n, f'`{src(n)[:70]}`'))
+        elif isinstance(n, ast.Call):
+            if isinstance(n.func, ast.Attribute) and n.func.attr in _MUTATORS and is_owned(n.func.value):
+                out.append((f, n, f'`{src(n)[:70]}`'))
+            elif depth > 0:
+                tgs = [t for t in A.typer.call_targets(n, Ctx(f, None)) if t.kind == 'func' and t.func is not None]
+                for tg in tgs[:3]:
+                    g = tg.func
+                    if g is f or g.qualname == f.qualname:
+                        continue
+                    ba = bound_args(n, g) or {}
+                    op = [k for k, v in ba.items() if is_owned(v)]
+                    if op:
+                        for (_, m, what) in owned_mutations(A, g, op, depth - 1, data_kw)[0]:
+                            out.append((f, n, f'`{src(n)[:50]}` -> {g.qualname}: {what}'))
+    return out, owned
 
 
 def merge_order(A, fmc):
@@ -194,10 +334,17 @@ def run(A, R: Report, thorough: bool):
     fac = cfgc.lookup('apply_context')
     cfg = A.cfg(fac)
     updates = [n for n in A.typer.own_nodes(fac) if isinstance(n, ast.Call) and isinstance(n.func, ast.Attribute) and n.func.attr == 'update' and src(n.func.value) == 'self._data']
-    R.require(len(updates) >= 2, 'anchor: fewer than 2 self._data.update(...) calls in Config.apply_context')
+    R.require(len(updates) >= 1, 'anchor: no self._data.update(...) call in Config.apply_context')
     glob = [u for u in updates if 'for_namespaces' not in src(u) and not any(isinstance(p, ast.For) for p in _parents(u))]
     nsup = [u for u in updates if any(isinstance(p, ast.For) and 'for_namespaces' in src(p.iter) for p in _parents(u))]
-    if not glob or not nsup:
+    lay = [context_layers(A, fac, u) for u in updates]
+    if len(updates) == 1 and lay[0] is not None:
+        # one update with a prepared overlay: the overlay's own layers carry the order
+        kinds = [k for br in lay[0] for k in [[kind for kind, _ in br]]]
+        ok1 = all(ks and ks[0] == 'global' and all(a != 'ns' or b != 'global' for a, b in zip(ks, ks[1:])) for ks in kinds) and any('ns' in ks for ks in kinds)
+        R.check(ok1, 'R09.1', 'Config.apply_context', key_of('order-overlay', kinds), 'global entries first, namespace entries override them',
+                f'the overlay applied to the config is built as {kinds}: the per-namespace entry is missing or is overwritten by the global context data', where=where(fac))
+    elif not glob or not nsup:
         R.undecided('R09.1', 'Config.apply_context', 'global / per-namespace update idiom not recognised', where=where(fac))
     else:
         g_nodes = [n.id for u in glob for n in cfg_nodes_for(cfg, u)]
@@ -287,7 +434,7 @@ def run(A, R: Report, thorough: bool):
         R.check(not problems, 'R09.4', f'Chain._process_config: `{src(c)[:40]}...`', key_of('propagation', sorted(set(problems))), 'base_dir, global_vars, context, composed namespace', '; '.join(sorted(set(problems))),
                 witness=[f'{k} = {pretty(v[0])[:160]}' for k, v in terms.items() if v], where=where(fpc, c))
     obj_branch = [n for n in A.typer.own_nodes(fpc) if isinstance(n, ast.Assign) and src(n.targets[0]) in ('use.context', 'use.namespace')]
-    ctx_ok = any(src(n.targets[0]) == 'use.context' and src(n.value) == f'{cp}.context' for n in obj_branch)
+    ctx_ok = any(src(n.targets[0]) == 'use.context' and src_resolved(A, fpc, n.value) == f'{cp}.context' for n in obj_branch)
     ns_stores = [n for n in obj_branch if src(n.targets[0]) == 'use.namespace']
     atn = A.sym.terms_at(fpc, ('inst', A.cls('Chain')), [n.value for n in ns_stores]) if ns_stores else {}
     own_ns9 = ('attr', ('p', cp), 'namespace')
@@ -383,13 +530,8 @@ def run(A, R: Report, thorough: bool):
     calls = [n for n in A.typer.own_nodes(fprep) if isinstance(n, ast.Call) and isinstance(n.func, ast.Attribute) and n.func.attr == '_create_tasks']
     R.require(calls, 'anchor: _create_tasks call not found in Chain._prepare')
     for c in calls:
-        arg = next((kw.value for kw in c.keywords if kw.arg == 'task_registry'), c.args[0] if c.args else None)
-        if arg is None:
-            pm = 'None'
-        elif isinstance(arg, ast.IfExp) and 'parameter_mode' in src(arg.test):
-            pm = src(arg.body)
-        else:
-            pm = src(arg)
+        from .common import first_pass_registry
+        pm = first_pass_registry(A, fprep, c)
         R.check(pm == 'None', 'R09.7', 'Chain._prepare: first pass', key_of('first-pass-registry', pm), 'no registry in parameter mode',
                 f'first-pass tasks are shared through `{pm}` under a key without the namespace: per-namespace context values of one mounting reach the tasks of another', where=where(fprep, c))
 
@@ -403,12 +545,12 @@ def run(A, R: Report, thorough: bool):
         if not (isinstance(lp.iter, ast.Call) and src(lp.iter.func) == 'enumerate' and isinstance(lp.target, ast.Tuple) and len(lp.target.elts) == 2 and all(isinstance(e, ast.Name) for e in lp.target.elts)):
             continue
         idx, elem = lp.target.elts[0].id, lp.target.elts[1].id
-        seq = src(subst_single_assign(A, fuu, lp.iter.args[0])) if lp.iter.args else ''
+        seq = src(subst_single_assign(A, fuu, lp.iter.args[0], identity=True)) if lp.iter.args else ''
         if "['uses']" not in seq:
             continue
         for n in ast.walk(lp):
             if isinstance(n, ast.Assign) and isinstance(n.targets[0], ast.Subscript) and src(n.targets[0].slice) == idx:
-                base = src(subst_single_assign(A, fuu, n.targets[0].value))
+                base = src(subst_single_assign(A, fuu, n.targets[0].value, identity=True))
                 stores8.append((n, elem, base == seq or "['uses']" in base))
     ok8 = bool(stores8)
     for st, elem, same_list in stores8:
@@ -443,6 +585,40 @@ def run(A, R: Report, thorough: bool):
     else:
         R.check(sel and sel_guard and main and final_raise and missing_raise, 'R09.8', 'Config._get_part', key_of('part-select', sel, sel_guard, main, final_raise, missing_raise),
                 'named part, else the main part, else an error', 'part selection no longer is: the named part (error if absent), else the unique main part, else an error', where=where(fgp))
+
+    # ---- R09.12 the per-task parameter config of the second pass must hand every declared parameter on under the name it is looked up by
+    from .c01 import check_parameter_copy
+    R.rule('R09.12', 'the per-task parameter config copies every declared parameter under the name the recreated task looks it up by (name_in_config)', floor=1)
+    check_parameter_copy(A, R, 'R09.12')
+
+    # ---- R09.9
+    R.rule('R09.9', 'preparing a context leaves the context it was given (dict or Context object) as it was: the caller can build the next config from it', floor=1)
+    fpc = ctxc.lookup('prepare_context')
+    R.require(fpc is not None and fpc.params, 'anchor: Context.prepare_context missing')
+    muts, owned = owned_mutations(A, fpc, [fpc.params[0]])
+    R.check(not muts, 'R09.9', 'Context.prepare_context: the given context', key_of('context-mutated', sorted({w for _, _, w in muts})), f'no store / delete / mutating call on {sorted(owned)}',
+            f'the context passed in is modified ({"; ".join(sorted({w for _, _, w in muts}))[:300]}): the second config built from the same context (MultiChain.from_dir passes one context to every Config) sees other values than the first',
+            where=where(fpc, muts[0][1]) if muts else where(fpc))
+
+
+    # ---- R09.10
+    R.rule('R09.10', 'building a chain does not read-modify-write attributes of the Config objects it was given (a second chain from the same configs composes the same namespaces)', floor=1)
+    fproc = A.cls('Chain').lookup('_process_config')
+    R.require(fproc is not None and len(fproc.params) >= 2, 'anchor: Chain._process_config missing')
+    muts10, owned10 = owned_mutations(A, fproc, [fproc.params[1]])
+    rmw = {}
+    for _, n, what in muts10:
+        tg = (n.targets if isinstance(n, ast.Assign) else [n.target]) if isinstance(n, (ast.Assign, ast.AugAssign, ast.AnnAssign)) else []
+        for t_ in tg:
+            if isinstance(t_, ast.Attribute):
+                # the same attribute of the same object is read in this function (in the stored value or in a test that selects the store)
+                reads = [x for x in A.typer.own_nodes(fproc) if isinstance(x, ast.Attribute) and isinstance(x.ctx, ast.Load) and x.attr == t_.attr and src(x.value) == src(t_.value)]
+                if reads or isinstance(n, ast.AugAssign):
+                    rmw.setdefault(src(t_), []).append(n)
+    R.check(not rmw, 'R09.10', 'Chain._process_config: Config objects in `uses`', key_of('config-rmw', sorted(rmw)), 'no attribute of a given Config is updated from its own previous value',
+            f'{sorted(rmw)} of a Config object listed in `uses` is updated from its own previous value: every chain built from the same Config objects composes the namespace once more (o::x, then o::o::x), so the second chain mounts the used config under another namespace',
+            where=where(fproc, next(iter(rmw.values()))[0]) if rmw else where(fproc))
+
 
 def _parents(n):
     p = getattr(n, '_parent', None)
